@@ -25,7 +25,7 @@ def derive_seed(*parts) -> int:
 
 class Sim:
     DEFAULT_BUDGETS = {
-        "frames": 4000,        # client->peer frames handled by endpoints
+        "frames": 30000,        # client->peer frames handled by endpoints
         "raw_io": 400000,      # raw recv/send calls on simulated sockets
         "vtime_us": 3600 * 10**6,
     }
